@@ -49,9 +49,13 @@ class ReplayChooser(object):
 def alt_cost(point, alt):
   if alt == 0:
     return 0
+  if point['kinds'][alt] == 'gate0':
+    return 0      # an external trigger the harness declared free (e.g. the operator's abort)
   if point['cur_enabled']:
     return 1
   kind = point['kinds'][alt]
+  if kind == 'gate0':
+    return 0
   if kind == 'run':
     return 0
   return 1 if 'run' in point['kinds'] or kind == 'signal' else 0
@@ -87,6 +91,8 @@ def _chunk(item):
   while stack and n < LOCAL_BUDGET:
     pre, u = stack.pop()
     ex = execute(pre)
+    if isinstance(ex.failure, runtime.Divergence):
+      raise runtime.Divergence('nondeterminism while replaying prefix %r: %s' % (pre, ex.failure))
     n += 1
     steps += ex.steps
     hashes |= ex.state_hashes
